@@ -128,11 +128,12 @@ class C05(Check):
         st.clusters[0].train_inverse = Th
         st.clusters[0].stacked_data_mean = np.zeros(n)
         det = logdet.DetWithRange('likelihood_logdet_argument_in_double_range')
+        c.log_range_obligation = 'likelihood_logdet_argument_in_double_range'
         stubs.install_linalg(det=det, slogdet=logdet.slogdet_stub)
         c.notes.update({'n': n, 'site': 'likelihood'})
         ok, res = guarded(c, 'likelihood_logdet_argument_in_double_range',
                           Rp.likelihood.all_points_all_clusters_log_likelihood, st, data)
-        if ok and det.calls == 0:
+        if ok:
             c.prove('likelihood_logdet_argument_in_double_range', True)
 
 
